@@ -54,6 +54,9 @@ class ResponseHandler(BaseProtocol, DataQueue[tuple[RawResponseMessage, StreamRe
         self._closed: None | asyncio.Future[None] = None
         self._connection_lost_called = False
 
+        # True while the connection sits unused in the connector's pool
+        self._idle = False
+
     @property
     def closed(self) -> None | asyncio.Future[None]:
         """Future that is set when the connection is closed.
@@ -90,6 +93,18 @@ class ResponseHandler(BaseProtocol, DataQueue[tuple[RawResponseMessage, StreamRe
 
     def force_close(self) -> None:
         self._should_close = True
+
+    def start_idle(self) -> None:
+        """Mark the connection as unused (it was returned to the pool)."""
+        self._idle = True
+
+    def _unsolicited_data(self) -> None:
+        # Data that arrives while no exchange is in progress (an unsolicited
+        # response, or surplus after the previous response) must never be
+        # handed to the next request: make sure the connection is not reused.
+        self._should_close = True
+        if self.transport is not None:
+            self.transport.close()
 
     def close(self) -> None:
         self._exception = None  # Break cyclic references
@@ -241,6 +256,7 @@ class ResponseHandler(BaseProtocol, DataQueue[tuple[RawResponseMessage, StreamRe
         max_headers: int = 128,
     ) -> None:
         self._skip_payload = skip_payload
+        self._idle = False
 
         self._read_timeout = read_timeout
 
@@ -302,6 +318,9 @@ class ResponseHandler(BaseProtocol, DataQueue[tuple[RawResponseMessage, StreamRe
         # If no data, then we are resuming decompression. We haven't received
         # data from the socket, so we can avoid the reschedule overhead.
         if data:
+            if self._idle:
+                self._unsolicited_data()
+                return
             self._reschedule_timeout()
 
         # custom payload parser - currently always WebSocketReader
@@ -343,6 +362,12 @@ class ResponseHandler(BaseProtocol, DataQueue[tuple[RawResponseMessage, StreamRe
             else:
                 exc = HttpProcessingError()
             self.set_exception(exc, underlying_exc)
+            return
+
+        if self._idle and messages:
+            # The connection was released while this data was being parsed (the
+            # previous response ended inside it); what follows is unsolicited.
+            self._unsolicited_data()
             return
 
         self._upgraded = upgraded
